@@ -4,15 +4,15 @@ CONSTANTS
   Externals = {3}
   Relays = {1, 2}
   Nodes = {1, 2}
-  DocIds = {1, 2, 3, 4, 5, 6}
+  DocIds = {1, 2, 3, 5}
   FailKinds = {"error", "malformed", "empty"}
   Ops = {}
   MaxInFlight = 0
   AuctionImpl = "intended"
   MaxRounds = 0
-  ScenLen = 2
-  MaxSignFail = 4
-  History = FALSE
-  Matrix = TRUE
+  ScenLen = 6
+  MaxSignFail = 1
+  History = TRUE
+  Matrix = FALSE
 INVARIANTS Emit
 CHECK_DEADLOCK FALSE
